@@ -82,6 +82,7 @@ type Exit struct {
 }
 
 type Run struct {
+	curBound T // term of the bound method value being called (for result records)
 	e     *Engine
 	fn    *ssa.Function
 	blk   *Block
@@ -1860,7 +1861,7 @@ func (r *Run) makeClosure(st *State, fr *Frame, x *ssa.MakeClosure) Val {
 			if m := e.prog.FuncValue(obj); m != nil && m.Pkg == e.pkg && len(m.Blocks) > 0 {
 				bm.Fn = m
 			}
-			bm.Name = obj.FullName()
+			bm.Name = strings.ReplaceAll(obj.FullName(), "github.com/joeycumines/go-bigbuff.", "")
 		}
 		e.methods[term.S] = bm
 		return bm
